@@ -446,6 +446,52 @@ func c14PruneFilter(c *Ctx) {
 	} else {
 		c.ok("zero-watermark", "tendermintWALStore."+wf, "", "exclusive watermark: its zero value filters no height")
 	}
+	// … and the same at open (F31): whether anything was pruned is decided by the existence of the watermark file, never by
+	// the stored height being greater than zero — no branch of the constructor path compares the loaded height with 0
+	{
+		ctor := wsFunc(p, "", "NewTendermintWALStore")
+		nz := 0
+		if ctor != nil {
+			for _, g := range samePkgScope(ctor, 2) {
+				var loaded []ssa.Value
+				for _, s2 := range sitesOf(g) {
+					if s2.Callee != nil && s2.Callee.Name() == "loadPruneWatermark" {
+						if v, ok := s2.Instr.(ssa.Value); ok {
+							if refs := v.Referrers(); refs != nil {
+								for _, r := range *refs {
+									if ex, ok := r.(*ssa.Extract); ok && ex.Index == 0 {
+										loaded = append(loaded, ex)
+									}
+								}
+							}
+						}
+					}
+				}
+				for _, lv := range loaded {
+					nz++
+					bad := ""
+					allInstrsOne(g, func(in ssa.Instruction) {
+						iff, ok := in.(*ssa.If)
+						if !ok {
+							return
+						}
+						b, ok := iff.Cond.(*ssa.BinOp)
+						if !ok {
+							return
+						}
+						isZero := func(v ssa.Value) bool { k, ok := constUint(stripConv(v)); return ok && k == 0 }
+						if (stripConv(b.X) == lv && isZero(b.Y)) || (stripConv(b.Y) == lv && isZero(b.X)) {
+							bad = p.Pos(posOf(in, g))
+						}
+					})
+					c.check(bad == "", "zero-watermark", "open: stored watermark 0 is a pruned height", p.Pos(fnPos(g)), "the loaded height is never compared with 0 to decide whether anything was pruned", "the constructor path branches on the stored watermark being 0 ("+bad+"): \"pruned through height 0\" is read as \"nothing pruned\" after a restart and entries of the pruned height 0 are accepted (or revived) again")
+				}
+			}
+		}
+		if nz == 0 {
+			c.und("zero-watermark", "NewTendermintWALStore", "", "the load of the prune watermark on the constructor path was not found")
+		}
+	}
 	for _, sp := range []struct{ fn, callee string }{
 		{"updateIndexesFromCommittedRecords", "addLiveEntry"},
 		{"applyEncodedRecord", "addLiveEntry"},
